@@ -50,3 +50,18 @@ func ExprAt(f *ssa.Function, pos token.Pos) string {
 
 // ReachableBlock:the block is reachable under the computed facts.
 func (a *FuncAn) ReachableBlock(b *ssa.BasicBlock) bool { return a.in[b] != nil }
+
+// LoopInfo describes one natural loop.
+type LoopInfo struct {
+	Head   *ssa.BasicBlock
+	Blocks map[*ssa.BasicBlock]bool
+}
+
+// LoopsOf lists the natural loops of fn (outermost first by header index).
+func LoopsOf(fn *ssa.Function) []LoopInfo {
+	var out []LoopInfo
+	for _, l := range findLoops(fn) {
+		out = append(out, LoopInfo{Head: l.head, Blocks: l.blocks})
+	}
+	return out
+}
